@@ -67,6 +67,19 @@ pub fn run_case(a: &Args) -> Value {
             } else {
                 ev["geo_main"] = json!("none");
                 ev["geo_other"] = json!("none");
+                // a rejected configuration is not the one in effect: statistics keep working, with one
+                // (servable) geometry for every thread
+                let gm = geometry("c17-main");
+                let go = std::thread::spawn(|| geometry("c17-other")).join().unwrap_or(json!("panic: thread"));
+                let _ = tx_go.send(());
+                let ge = early.join().unwrap_or(json!("panic: thread"));
+                if gm.is_array() && go.is_array() && ge.is_array() {
+                    ev["rej_main"] = gm;
+                    ev["rej_other"] = go;
+                    ev["rej_early"] = ge;
+                } else {
+                    ev["rej_bad"] = json!(format!("{} / {} / {}", gm, go, ge));
+                }
             }
         }
         Err(p) => {
